@@ -215,6 +215,14 @@ def gen_case(rng, kind="field"):
     ops.append({"op": "vdot", "f": 0, "g": 4, "spaces": None, "bad": "domain"})
     ops.append({"op": "vdot", "f": 4, "g": 0, "spaces": [0] if n else [], "bad": "domain"})
     ops.append({"op": "s_vdot", "f": 0, "g": 4, "bad": "domain"})
+    for sp in odd_spaces(rng, n):
+        for name in rng.sample(L.CONTRACTIONS + ["weight", "vdot", "total_volume", "scalar_weight"], 4):
+            o = {"op": name, "f": 0, "spaces": sp, "bad": "spaces-odd"}
+            if name == "weight":
+                o["power"] = rng.choice([1, 2])
+            if name == "vdot":
+                o["g"] = 1
+            ops.append(o)
     for sp in bad_spaces(rng, n):
         name = rng.choice(L.CONTRACTIONS + ["weight", "vdot", "total_volume", "scalar_weight"])
         o = {"op": name, "f": 0, "spaces": sp, "bad": "spaces"}
@@ -294,6 +302,21 @@ def bad_spaces(rng, n):
         out += [[0, 0], [0, n]]
     if n >= 2:
         out += [[1, 0, 1], [-1]]
+    return out
+
+
+def odd_spaces(rng, n):
+    """tuples mixing negative / too large indices with valid ones: parse_spaces only looks at the first and last
+    element of tuple(set(spaces)), so some of them are accepted (Python then resolves negative indices)"""
+    out = []
+    for _ in range(6):
+        k = rng.randint(2, 4)
+        t = [rng.randint(-n - 1, n + 1) if rng.random() < 0.8 else rng.choice([8, 9, 15, -9]) for _ in range(k)]
+        if any(i < 0 or i >= n for i in t):
+            out.append(t)
+    for t in ([0, -1], [n - 1, -1], [0, -n], [1, -1], [0, 1, -1], [0, -2, 2], [n, 0], [9, 1], [1, 9]):
+        if n >= 1 and rng.random() < 0.5:
+            out.append(list(t))
     return out
 
 
@@ -811,10 +834,16 @@ def check_volume_hypothesis(ctx, case, built):
                                    f"factors {tot!r}", {"kind": "volume", "domain": r[0]})
 
 
-def run_cases(ctx, cases):
+def run_cases(ctx, cases, set_tuples=()):
     builts = [L.Built(c) for c in cases]
     lines = [L.model_case(c, b) for c, b in zip(cases, builts)]
-    outs = ctx.model(DRIVER, lines)
+    outs = ctx.model(DRIVER, lines + [{"setorder": list(t)} for t in set_tuples])
+    # the transcription of CPython's set iteration order (parse_spaces depends on it) against the interpreter itself
+    for t, out in zip(set_tuples, outs[len(lines):]):
+        real = [int(i) for i in tuple(set(tuple(t)))]
+        ctx.stat("setorder-tuples")
+        ctx.compare({"setorder": list(t)}, {"order": real}, out, note="tuple(set(spaces)) iteration order",
+                    nontrivial=len(set(t)) > 1)
     for case, built, out in zip(cases, builts, outs):
         if "res" not in out:
             ctx.broke("correspondence", "model driver rejected a case", str(out)[:300])
@@ -842,6 +871,8 @@ def run_cases(ctx, cases):
                 ctx.stat("error:" + m["error"])
             if op.get("bad"):
                 ctx.stat("malformed:" + op["bad"])
+                if op["bad"] == "spaces-odd" and "error" not in m:
+                    ctx.stat("odd-spaces-accepted:" + op["op"])
             ctx.compare(one, m if ok else impl, m, note=f"C06 {opname}: real code vs Lean model",
                         nontrivial=("error" not in m) and size > 1)
             r = check_op(built, op)
@@ -868,9 +899,13 @@ def run(ctx):
         cases.append(c)
     for _ in range(nm):
         cases.append(gen_mcase(ctx.rng))
+    tuples = []
+    for _ in range(ctx.n(400, 6000)):
+        lo, hi = ctx.rng.choice([(-4, 6), (-12, 40), (-3, 3), (-40, 300), (-1, 9)])
+        tuples.append([ctx.rng.randint(lo, hi) for _ in range(ctx.rng.randint(1, 14))])
     chunk = 200                    # few driver starts: each one elaborates the driver (seconds)
     for i in range(0, len(cases), chunk):
-        run_cases(ctx, cases[i:i + chunk])
+        run_cases(ctx, cases[i:i + chunk], tuples if i == 0 else ())
 
 
 def search(ctx):
